@@ -708,7 +708,7 @@ fn main() {
     run.drive_enum_par("by_format_and_count", cases, threads, |c| judge(&run, &selftest, c));
 
     // ---- random ---------------------------------------------------------------------------------------------
-    run.drive_par("random_flows", run.scale(600, 20_000), threads, case_strategy(), |c| judge(&run, &selftest, c));
+    run.drive_par("random_flows", run.scale(3_000, 40_000), threads, case_strategy(), |c| judge(&run, &selftest, c));
 
     // non-vacuity guard: most flows must reach the size comparison
     let ok = run.hist_get("sign_ok");
